@@ -94,6 +94,9 @@ fn check(ctx: &Ctx, i: u64, respellings: u64) {
         ctx.count("base_panics_skipped", 1);
         return;
     }
+    if a.is_ok() && i % 3 == 0 {
+        existence_tests(ctx, i, &nodes, &canon);
+    }
     for k in 0..respellings {
         let d = &DIMS[((i + k) % DIMS.len() as u64) as usize];
         let text = respell(&nodes, d, Rng::for_case(ctx.seed, 0xC14_2 + k, i));
@@ -124,6 +127,45 @@ fn check(ctx: &Ctx, i: u64, respellings: u64) {
                 format!("respelling ({}) of a {} program changed the result: {:?} -> {}", d.name, family, a.kind(), fw::clip(&format!("{:?}", b.brief()), 200)),
                 json!({"source": canon, "respelled": text, "dimension": d.name, "family": family, "observed": a.brief(), "observed_respelled": b.brief()}),
             );
+        }
+    }
+}
+
+/// A symbol reference where a directive tests whether a name exists (`.ifdef` / `.ifndef` on an `.equ` or `.set`
+/// name or a label): whatever the tool takes such a test to mean, it means the same in every letter case.
+fn existence_tests(ctx: &Ctx, i: u64, nodes: &[Node], canon: &str) {
+    let mut rng = Rng::for_case(ctx.seed, 0xC14_E, i);
+    let names: Vec<String> = nodes
+        .iter()
+        .filter_map(|n| match n {
+            Node::Equ(name, _) | Node::Set(name, _) | Node::Label(name) => Some(name.clone()),
+            Node::Instr { label: Some(l), .. } | Node::Data { label: Some(l), .. } | Node::Reserve { label: Some(l), .. } => Some(l.clone()),
+            _ => None,
+        })
+        .collect();
+    if names.is_empty() || canon.to_lowercase().contains(".exit") {
+        return;
+    }
+    let name = rng.pick(&names).clone();
+    let dir = *rng.pick(&[".ifdef", ".ifndef", "#ifdef", "#ifndef"]);
+    let tail = |spelled: &str| format!("{}.cseg\n{} {}\n\t.dw 0x1111\n.dseg\n\t.byte 2\n.cseg\n.else\n\t.dw 0x2222\n.endif\n", canon, dir, spelled);
+    let spellings = [name.to_lowercase(), name.to_uppercase(), crate::gen::spell::case(&name, &mut rng), name.clone()];
+    let outs: Vec<Outcome> = spellings.iter().map(|s| fw::build_str(&tail(s))).collect();
+    ctx.eval(outs.len() as u64);
+    ctx.count("existence_tests_on_symbols", 1);
+    for (k, o) in outs.iter().enumerate().skip(1) {
+        let same = match (&outs[0], o) {
+            (Outcome::Ok(x), Outcome::Ok(y)) => x.code == y.code && x.eeprom == y.eeprom && x.ram_filling == y.ram_filling,
+            (Outcome::Err(_), Outcome::Err(_)) => true,
+            _ => false,
+        };
+        if !same {
+            ctx.violation(
+                format!("syntax/case/existence-test-on-a-symbol/{}", dir.trim_start_matches(['.', '#'])),
+                format!("`{} {}` and `{} {}` select different branches (or one of them fails): {:?} vs {:?}", dir, spellings[0], dir, spellings[k], outs[0].kind(), o.kind()),
+                json!({"source": tail(&spellings[0]), "respelled": tail(&spellings[k]), "dimension": "case", "family": "existence-test", "observed": outs[0].brief(), "observed_respelled": o.brief()}),
+            );
+            break;
         }
     }
 }
